@@ -91,6 +91,16 @@ def judge(sessions, cmp=("value",), mode="used", maxsteps=60000, trace=False, ti
             rs["pregrow"] = s["pregrow"]
         real_in.append(rs)
     real = vlib.run_real(real_in)
+    # the harness's per-session safety net (60 s of wall clock; the deterministic detectors are the step budgets) fired:
+    # run such a session again on its own; only a second expiry counts as an observation (the program does not terminate
+    # outside the instruction loop), a single one is load on the machine
+    slow = [rs for rs in real_in if real.get(rs["id"]) and real[rs["id"]][0].get("kind") == "timeout"]
+    for rs in slow:
+        again = vlib.run_real([rs], nworkers=1)
+        if again.get(rs["id"]) and again[rs["id"]][0].get("kind") != "timeout":
+            real[rs["id"]] = again[rs["id"]]
+        else:
+            real[rs["id"]] = [{"kind": "hang", "where": "no result after 60 s of wall clock, twice (outside the VM's instruction loop)"}]
     verdicts = {}
     tlc_in = []
     for s in sessions:
